@@ -3,12 +3,20 @@ use pvmc::run::run_query;
 fn main() {
     pvmc::run::install_quiet_panic_hook();
     let x = T::V(0);
+    let y = T::V(1);
+    let z = T::V(2);
+    let dom = G::InFd(vec![x.clone(), y.clone(), z.clone()], Dom::Range(0, 3));
+    let dist = G::DistinctFd(T::list(vec![x.clone(), y.clone(), z.clone()]));
     let progs = vec![
-        Program { nq: 1, body: vec![G::Dfs(vec![G::Conde(vec![vec![G::Eq(x.clone(), T::list(vec![T::I(1), T::I(2), T::I(3)]))], vec![G::Eq(x.clone(), T::I(1))]])])] },
-        Program { nq: 1, body: vec![G::Dfs(vec![G::Rel(Rel::Member, vec![x.clone(), T::list(vec![T::list(vec![T::I(1), T::I(2)]), T::I(7), T::list(vec![T::I(3)]), T::I(8)])])])] },
+        Program { nq: 3, body: vec![G::PlusZ(x.clone(), y.clone(), z.clone()), G::Fd(FdKind::Lt, vec![x.clone(), y.clone()]), dom.clone(), dist.clone()] },
+        Program { nq: 3, body: vec![G::PlusZ(x.clone(), y.clone(), z.clone()), G::Conde(vec![vec![G::Fail], vec![G::Fd(FdKind::Lt, vec![x.clone(), y.clone()])]]), dom.clone(), dist.clone()] },
+        Program { nq: 3, body: vec![G::PlusZ(x.clone(), y.clone(), z.clone()), dom.clone()] },
+        Program { nq: 3, body: vec![dom.clone(), G::PlusZ(x.clone(), y.clone(), z.clone())] },
     ];
     for p in progs {
-        let out = run_query(1, &p, 10, 10000);
-        println!("{} => {:?}", p, out.answers.iter().map(|a| a.to_string()).collect::<Vec<_>>());
+        for _ in 0..4 {
+            let out = run_query(3, &p, 100, 100000);
+            println!("{} => {:?} {:?}", p, out.answers.iter().map(|a| a.to_string()).collect::<Vec<_>>(), out.end);
+        }
     }
 }
